@@ -13,9 +13,9 @@ import (
 	"strings"
 )
 
-func init() { extraGenerators = append(extraGenerators, genNameFacts) }
+func init() { extraGenerators = append(extraGenerators, c17GenNameFacts) }
 
-func findFunc(f *ast.File, name string) *ast.FuncDecl {
+func c17FindFunc(f *ast.File, name string) *ast.FuncDecl {
 	for _, d := range f.Decls {
 		if fd, ok := d.(*ast.FuncDecl); ok && fd.Name.Name == name && fd.Body != nil {
 			return fd
@@ -24,7 +24,7 @@ func findFunc(f *ast.File, name string) *ast.FuncDecl {
 	return nil
 }
 
-func litArg(c *ast.CallExpr, i int) string {
+func c17LitArg(c *ast.CallExpr, i int) string {
 	if i < len(c.Args) {
 		if bl, ok := c.Args[i].(*ast.BasicLit); ok && bl.Kind == token.STRING {
 			if s, err := strconv.Unquote(bl.Value); err == nil {
@@ -54,22 +54,22 @@ func c17ConstString(f *ast.File, name string) string {
 	return out
 }
 
-func genNameFacts() (string, string) {
+func c17GenNameFacts() (string, string) {
 	var b strings.Builder
 	b.WriteString(header + "namespace CV.Gen\n\n")
 	lf := parse("loader/loader.go")
 	regex, cutset := "unknown:no regexp.MustCompile", "unknown:no strings.TrimLeft"
 	var calls []string
-	if fd := findFunc(lf, "NormalizeProjectName"); fd != nil {
+	if fd := c17FindFunc(lf, "NormalizeProjectName"); fd != nil {
 		ast.Inspect(fd.Body, func(n ast.Node) bool {
 			if c, ok := n.(*ast.CallExpr); ok {
 				fn := src(c.Fun)
 				calls = append(calls, fn)
 				switch fn {
 				case "regexp.MustCompile":
-					regex = litArg(c, 0)
+					regex = c17LitArg(c, 0)
 				case "strings.TrimLeft":
-					cutset = litArg(c, 1)
+					cutset = c17LitArg(c, 1)
 				}
 			}
 			return true
@@ -81,10 +81,43 @@ func genNameFacts() (string, string) {
 	cf := parse("consts/consts.go")
 	fmt.Fprintf(&b, "def const_ComposeProjectName : String := %s\n", leanStr(c17ConstString(cf, "ComposeProjectName")))
 	fmt.Fprintf(&b, "def const_ComposeDisableDefaultEnvFile : String := %s\n", leanStr(c17ConstString(cf, "ComposeDisableDefaultEnvFile")))
+	fmt.Fprintf(&b, "def const_ComposeFilePath : String := %s\n", leanStr(c17ConstString(cf, "ComposeFilePath")))
+	fmt.Fprintf(&b, "def const_ComposePathSeparator : String := %s\n", leanStr(c17ConstString(cf, "ComposePathSeparator")))
+	// cli.DefaultFileNames / DefaultOverrideFileNames (order of preference)
+	of0 := parse("cli/options.go")
+	for _, v := range []string{"DefaultFileNames", "DefaultOverrideFileNames"} {
+		var names []string
+		ok := false
+		ast.Inspect(of0, func(n ast.Node) bool {
+			if vs, isVS := n.(*ast.ValueSpec); isVS {
+				for i, id := range vs.Names {
+					if id.Name == v && i < len(vs.Values) {
+						if cl, isCL := vs.Values[i].(*ast.CompositeLit); isCL {
+							ok = true
+							for _, e := range cl.Elts {
+								if bl, isBL := e.(*ast.BasicLit); isBL {
+									if s, err := strconv.Unquote(bl.Value); err == nil {
+										names = append(names, s)
+										continue
+									}
+								}
+								names = append(names, "unknown:"+src(e))
+							}
+						}
+					}
+				}
+			}
+			return true
+		})
+		if !ok {
+			names = []string{"unknown:" + v}
+		}
+		fmt.Fprintf(&b, "def cli_%s : List String := [%s]\n", v, joinLean(names))
+	}
 	// withNamePrecedenceLoad: the conditions of the if / else-if chain of the returned closure
 	var conds []string
 	of := parse("cli/options.go")
-	if fd := findFunc(of, "withNamePrecedenceLoad"); fd != nil {
+	if fd := c17FindFunc(of, "withNamePrecedenceLoad"); fd != nil {
 		ast.Inspect(fd.Body, func(n ast.Node) bool {
 			if fl, ok := n.(*ast.FuncLit); ok {
 				for _, st := range fl.Body.List {
